@@ -8,7 +8,9 @@
    identically (C02_order_independent) -- through an exact characterisation of a built trie's content
    by the list of registered bindings. *)
 From Larking Require Import Base.GoSem Model.Lexer Model.Trie Model.Match Spec.Grammar Spec.Route
-  Proofs.LexerProofs Proofs.MatchProofs Proofs.TrieProofs Proofs.RoutingProofs Proofs.OrderProofs Proofs.AcceptProofs.
+  Spec.Template
+  Proofs.LexerProofs Proofs.MatchProofs Proofs.TrieProofs Proofs.RoutingProofs Proofs.OrderProofs Proofs.AcceptProofs
+  Proofs.TemplateInstProofs.
 From Coq Require Import Permutation.
 Local Open Scope N_scope.
 
@@ -23,6 +25,22 @@ Theorem C02_complete :
   exists r, route okconv isLetter isNumber root verb p = Ok r.
 Proof. exact dispatch_complete. Qed.
 Print Assumptions C02_complete.
+
+(* completeness read at the level of text, with the property's own premises: the request path is an
+   instance (Spec/Template.v: pieces between "/" made of the documented path characters, lined up with
+   the template's segments) of a registered binding's template, it is within larking's limit of 64
+   path tokens, and captures convert -- then the request is served *)
+Theorem C02_complete_text :
+  forall isLetter isNumber resolves okconv, Sane isLetter isNumber -> (forall fp t, okconv fp t = true) ->
+  forall L root verb p mid b es vfs t cs,
+  Inv isLetter isNumber resolves L root -> In (mid, b) L -> covers_verb (b_verb b) verb ->
+  compiled isLetter isNumber resolves mid b es vfs ->
+  parse_tmpl isLetter isNumber (b_tmpl b) = Some t ->
+  inst isLetter isNumber true t p = Some cs ->
+  (path_tokens (normalise p) <= 64)%nat ->
+  exists r, route okconv isLetter isNumber root verb p = Ok r.
+Proof. exact oracle_match_is_served_bounded. Qed.
+Print Assumptions C02_complete_text.
 
 (* ... and by a method that owns a rule covering the request (C01 applied to the answer) *)
 Theorem C02_complete_to_owner :
